@@ -155,7 +155,9 @@ func directedSoup(c *ctx) {
 	type kind struct{ open, close string }
 	kinds := []kind{{"<a>", "</a>"}, {"<a href=\"/x\">", "</a>"}, {"<bdo>", "</bdo>"}, {"<b>", "</b>"}, {"<u>", "</u>"}}
 	for v := 0; v < 2; v++ {
+		// a and bdo are allowed only with an attribute (a bare one is dropped and remembered), b is kept, u is not allowed and its content skipped
 		ops := []*bmx.Op{{Kind: "AE", Names: []string{"b", "i"}}, {Kind: "AA", Names: []string{"href"}, Scope: "E", ScopeEl: []string{"a"}},
+			{Kind: "AA", Names: []string{"dir"}, Scope: "E", ScopeEl: []string{"bdo"}},
 			{Kind: "SK", Names: []string{"u"}}, {Kind: "RU", Flag: true}, {Kind: "SP", Flag: v == 1}}
 		pid, pol := c.policy(ops)
 		var opens func(prefix string, closers []string, d int)
